@@ -302,18 +302,11 @@ func ruleRawJSONProvenance(c *core.Ctx) {
 			if c.IsTestFile(f.Pos()) {
 				continue
 			}
-			ast.Inspect(f, func(m ast.Node) bool {
-				ce, ok := m.(*ast.CallExpr)
-				if !ok || len(ce.Args) != 1 {
-					return true
-				}
-				tv, ok := pinfo.Types[ce.Fun]
-				if !ok || !tv.IsType() || !isRaw(tv.Type) {
-					return true
-				}
-				n++
-				arg := ast.Unparen(ce.Args[0])
-				// peel []byte(x) / string(x)
+			// provenance of the text: a constant, json.Marshal, or the decimal text of a big integer — through
+			// conversions and through a local assigned once
+			var provenance func(arg ast.Expr, at token.Pos, depth int) string
+			provenance = func(arg ast.Expr, at token.Pos, depth int) string {
+				arg = ast.Unparen(arg)
 				for {
 					in, ok := arg.(*ast.CallExpr)
 					if !ok || len(in.Args) != 1 {
@@ -325,42 +318,102 @@ func ruleRawJSONProvenance(c *core.Ctx) {
 					}
 					break
 				}
-				good := ""
 				if tv2, ok := pinfo.Types[arg]; ok && tv2.Value != nil && tv2.Value.Kind() == constant.String {
-					good = "a constant"
+					return "a constant"
 				}
 				if in, ok := arg.(*ast.CallExpr); ok {
 					if fn := core.Callee(pinfo, in); fn != nil {
+						sig := fn.Type().(*types.Signature)
 						switch {
 						case core.FullName(fn) == "encoding/json.Marshal":
-							good = "a result of json.Marshal"
-						case (fn.Name() == "String" || fn.Name() == "Text") && fn.Type().(*types.Signature).Recv() != nil && isBig(fn.Type().(*types.Signature).Recv().Type()):
-							good = "the decimal text of a big integer"
+							return "a result of json.Marshal"
+						case sig.Recv() != nil && isBig(sig.Recv().Type()) && (fn.Name() == "String" || fn.Name() == "Text" || fn.Name() == "Append" || fn.Name() == "MarshalText" || fn.Name() == "MarshalJSON"):
+							return "the decimal text of a big integer"
 						}
 					}
 				}
-				if id, ok := arg.(*ast.Ident); ok && good == "" {
-					// a local that holds the first result of json.Marshal
-					if enc := enclosingFuncBody(f, ce.Pos()); enc != nil {
+				if id, ok := arg.(*ast.Ident); ok && depth < 3 {
+					if enc := enclosingFuncBody(f, at); enc != nil {
+						var rhs []ast.Expr
 						ast.Inspect(enc, func(k ast.Node) bool {
 							as, ok := k.(*ast.AssignStmt)
-							if !ok || len(as.Rhs) != 1 || len(as.Lhs) == 0 {
+							if !ok || len(as.Lhs) == 0 {
 								return true
 							}
-							if li, ok := as.Lhs[0].(*ast.Ident); ok && pinfo.ObjectOf(li) == pinfo.ObjectOf(id) {
-								if in, ok := ast.Unparen(as.Rhs[0]).(*ast.CallExpr); ok {
-									if fn := core.Callee(pinfo, in); fn != nil && core.FullName(fn) == "encoding/json.Marshal" {
-										good = "a result of json.Marshal"
-									}
-								}
+							if li, ok := as.Lhs[0].(*ast.Ident); ok && pinfo.ObjectOf(li) == pinfo.ObjectOf(id) && len(as.Rhs) >= 1 {
+								rhs = append(rhs, as.Rhs[0])
 							}
 							return true
 						})
+						if len(rhs) == 1 {
+							return provenance(rhs[0], at, depth+1)
+						}
 					}
 				}
-				key := fmt.Sprintf("%s(%s)", types.ExprString(ce.Fun), types.ExprString(ce.Args[0]))
-				c.Check(good != "", rule, key, ce.Pos(), "raw JSON from "+good,
+				return ""
+			}
+			judge := func(what string, arg ast.Expr, at token.Pos) {
+				n++
+				good := provenance(arg, at, 0)
+				c.Check(good != "", rule, what, at, "raw JSON from "+good,
 					"text that is not JSON by construction is emitted verbatim into the model JSON: for a value such as `.5` or `2.` json.Marshal of the enclosing document fails after part of the output was written, with an error that names no file or line")
+			}
+			ast.Inspect(f, func(m ast.Node) bool {
+				switch x := m.(type) {
+				case *ast.CallExpr: // explicit conversion
+					if len(x.Args) != 1 {
+						return true
+					}
+					if tv, ok := pinfo.Types[x.Fun]; ok && tv.IsType() && isRaw(tv.Type) {
+						// the conversion inside the MarshalJSON of the raw type itself ([]byte(b)) goes the other way
+						if at, ok := pinfo.Types[x.Args[0]]; ok && isRaw(at.Type) {
+							return true
+						}
+						judge(fmt.Sprintf("%s(%s)", types.ExprString(x.Fun), types.ExprString(x.Args[0])), x.Args[0], x.Pos())
+					}
+				case *ast.CompositeLit: // a field of raw-JSON type given a plain []byte / string
+					st, ok := pinfo.TypeOf(x).Underlying().(*types.Struct)
+					if !ok {
+						return true
+					}
+					for i, el := range x.Elts {
+						var fv *types.Var
+						val := el
+						if kv, ok := el.(*ast.KeyValueExpr); ok {
+							val = kv.Value
+							if id, ok := kv.Key.(*ast.Ident); ok {
+								for k := 0; k < st.NumFields(); k++ {
+									if st.Field(k).Name() == id.Name {
+										fv = st.Field(k)
+									}
+								}
+							}
+						} else if i < st.NumFields() {
+							fv = st.Field(i)
+						}
+						if fv == nil || !isRaw(fv.Type()) {
+							continue
+						}
+						if vt := pinfo.TypeOf(val); vt != nil && isRaw(vt) {
+							continue // already of the raw type: judged where it was converted
+						}
+						judge(fmt.Sprintf("%s: %s", fv.Name(), types.ExprString(val)), val, val.Pos())
+					}
+				case *ast.AssignStmt:
+					if len(x.Lhs) != len(x.Rhs) {
+						return true
+					}
+					for i, l := range x.Lhs {
+						lt := pinfo.TypeOf(l)
+						if lt == nil || !isRaw(lt) {
+							continue
+						}
+						if vt := pinfo.TypeOf(x.Rhs[i]); vt != nil && isRaw(vt) {
+							continue
+						}
+						judge(fmt.Sprintf("%s = %s", types.ExprString(l), types.ExprString(x.Rhs[i])), x.Rhs[i], x.Pos())
+					}
+				}
 				return true
 			})
 		}
@@ -815,12 +868,40 @@ func ruleWalkKeepsEveryModelFile(c *core.Ctx) {
 			if !walkers[name] || len(ce.Args) < 2 {
 				return true
 			}
-			fl, ok := ast.Unparen(ce.Args[1]).(*ast.FuncLit)
-			if !ok {
+			var flBody *ast.BlockStmt
+			switch cb := ast.Unparen(ce.Args[1]).(type) {
+			case *ast.FuncLit:
+				flBody = cb.Body
+			case *ast.Ident:
+				obj := info.ObjectOf(cb)
+				if fo, ok := obj.(*types.Func); ok { // a function of the package
+					if cd := c.Decl(fo); cd != nil {
+						flBody = cd.Body
+					}
+				} else { // a local bound once to a function literal
+					nAssign := 0
+					ast.Inspect(fd.Body, func(k ast.Node) bool {
+						if as, ok := k.(*ast.AssignStmt); ok && len(as.Lhs) == 1 && len(as.Rhs) == 1 {
+							if li, ok := as.Lhs[0].(*ast.Ident); ok && info.ObjectOf(li) == obj {
+								nAssign++
+								if l2, ok := ast.Unparen(as.Rhs[0]).(*ast.FuncLit); ok {
+									flBody = l2.Body
+								}
+							}
+						}
+						return true
+					})
+					if nAssign != 1 {
+						flBody = nil
+					}
+				}
+			}
+			if flBody == nil {
 				n++
-				c.Undecided(rule, c.FuncName(fd)+"/walk callback", ce.Pos(), "the callback of the walk is not a function literal")
+				c.Undecided(rule, c.FuncName(fd)+"/walk callback", ce.Pos(), "the callback of the walk is neither a function literal, a local bound once to one, nor a function of the package")
 				return true
 			}
+			fl := &ast.FuncLit{Body: flBody}
 			// (a) SkipDir / SkipAll
 			var skip token.Pos
 			ast.Inspect(fl.Body, func(k ast.Node) bool {
@@ -834,7 +915,7 @@ func ruleWalkKeepsEveryModelFile(c *core.Ctx) {
 				if skip != token.NoPos {
 					return skip
 				}
-				return fl.Pos()
+				return flBody.Pos()
 			}(), "the callback returns only nil or the error it was given",
 				"the callback returns SkipDir/SkipAll: returned for a FILE it skips the rest of the directory, so every model file sorted behind such an entry (a dot-file like .DS_Store) is never parsed — an invalid definition in one of them is not reported and validation passes")
 			// (b) conditions in front of the append
@@ -880,7 +961,7 @@ func ruleWalkKeepsEveryModelFile(c *core.Ctx) {
 					case *ast.Ident:
 						nm = fx.Name
 					}
-					if !allowedCalls[nm] {
+					if !allowedCalls[nm] && !nameOnlyPredicate(c, info, ce2, allowedCalls, 0) {
 						badCond, badAt = types.ExprString(ce2), ce2.Pos()
 					}
 					return true
@@ -891,7 +972,7 @@ func ruleWalkKeepsEveryModelFile(c *core.Ctx) {
 				if badAt != token.NoPos {
 					return badAt
 				}
-				return fl.Pos()
+				return flBody.Pos()
 			}(), "a file is added under tests of its name and IsDir only",
 				"whether a *.yml file of the model directory is parsed also depends on `"+badCond+"`: files that fail that test (a symbolic link, a name with a certain prefix) are silently left out, so an invalid definition in them is not reported and validation passes")
 			return true
@@ -1600,4 +1681,49 @@ func lastBackEndOfARun(c *core.Ctx) (last string, order []string, decided bool) 
 		return sites[len(sites)-1].be, order, true
 	}
 	return "", nil, false
+}
+
+
+// nameOnlyPredicate: the call goes to a function of the module whose body consists of calls from the allowed set (and
+// of such helpers): a predicate over the file name, factored out of the walk callback.
+func nameOnlyPredicate(c *core.Ctx, info *types.Info, call *ast.CallExpr, allowed map[string]bool, depth int) bool {
+	if depth > 2 {
+		return false
+	}
+	f := core.Callee(info, call)
+	if f == nil || !core.InModule(f) {
+		return false
+	}
+	d := c.Decl(f)
+	if d == nil || d.Body == nil || c.DeclPkg(d) == nil {
+		return false
+	}
+	// only string parameters (a name), no FileInfo / DirEntry to ask further questions of
+	for _, fl := range d.Type.Params.List {
+		if t := c.DeclPkg(d).TypesInfo.TypeOf(fl.Type); t != nil {
+			if b, ok := t.Underlying().(*types.Basic); !ok || b.Info()&types.IsString == 0 {
+				return false
+			}
+		}
+	}
+	ok := true
+	dinfo := c.DeclPkg(d).TypesInfo
+	ast.Inspect(d.Body, func(k ast.Node) bool {
+		ce, isCall := k.(*ast.CallExpr)
+		if !isCall {
+			return true
+		}
+		nm := ""
+		switch fx := ast.Unparen(ce.Fun).(type) {
+		case *ast.SelectorExpr:
+			nm = fx.Sel.Name
+		case *ast.Ident:
+			nm = fx.Name
+		}
+		if !allowed[nm] && !nameOnlyPredicate(c, dinfo, ce, allowed, depth+1) {
+			ok = false
+		}
+		return true
+	})
+	return ok
 }
